@@ -342,6 +342,8 @@ const GAME_ROOTS: &[&str] = &[
 /// scripted openings from the standard start that create unusual material early (three knights, two or three queens
 /// per side), so that random continuations meet the rarer short-notation forms
 const PREFIXES: &[&str] = &[
+    "f2f4 e7e5 f4e5 f7f5 e5f6 Ke8f7 f6g7 Bf8g7 Ng1h3 a7a6 e2e4 a6a5 Bf1e2 a5a4 O-O Kf7e8 d2d4",
+    "d2d4 d7d5 Nb1c3 e7e5 Bc1f4 e5f4 Qd1d3 Ke8d7 d4d5 Kd7d6 Qd3e3 f4e3 O-O-O",
     "h2h4 g7g5 h4g5 a7a6 g5g6 b7b6 g6h7 Bc8b7 h7g8=N Nb8c6 Nb1c3 d7d6 Nc3e4 Qd8d7 Ng1f3 O-O-O Nf3e5 Kc8b8 Ne5g4 a6a5",
     "a2a4 b7b5 a4b5 h7h6 b5b6 g7g6 b6c7 Bf8g7 c7b8=Q Ng8f6 h2h4 g6g5 h4g5 O-O g5h6 a7a5 h6g7 a5a4 g7f8=Q Kg8h7",
     "h2h4 a7a5 h4h5 a5a4 h5h6 a4a3 h6g7 a3b2 g7h8=N b2a1=N Nb1c3 Nb8c6 Ng1f3 Ng8f6",
@@ -490,6 +492,18 @@ fn suite_game(w: &mut dyn Write, tier: &str, seed: u64, shard: usize, nshards: u
             if i % nshards != shard { continue }
             random_game_from(&mut cx, &Desc::from_fen(fen), 2, 0, Some(script));
         }
+        // a capture, then the same origin-destination move again onto the now empty square, reaching the same position:
+        // the recorded flags and notation of the second one depend on the position it was played FROM
+        const CAPTURE_LOOPS: &[(&str, &str)] = &[
+            ("rnbqkbnr/pppppppp/8/8/8/8/PPPPPPPP/RNBQKBNR w KQkq - 0 1", "e2e4 e7e5 Ng1f3 Nb8c6 Nf3e5 Nc6b8 Ne5f3 Nb8c6 Nf3e5 Nc6e5"),
+            ("4k3/8/8/8/8/8/r7/R3K3 w - - 0 1", "Ra1a2 Ke8d8 Ra2a1 Kd8e8 Ra1a2 Ke8d8"),
+            ("r3k3/R7/8/8/8/8/8/4K3 b - - 0 1", "Ra8a7 Ke1d1 Ra7a8 Kd1e1 Ra8a7 Ke1d1"),
+            ("4k3/8/8/8/8/2n5/8/1N2K3 w - - 0 1", "Nb1c3 Ke8d8 Nc3b1 Kd8e8 Nb1c3 Ke8d8"),
+        ];
+        for (i, (fen, script)) in CAPTURE_LOOPS.iter().enumerate() {
+            if i % nshards != shard { continue }
+            random_game_from(&mut cx, &Desc::from_fen(fen), 1, 0, Some(script));
+        }
         // the fifty-move threshold and the third occurrence falling on the same or on neighbouring plies (precedence)
         let n4 = tier_n(tier, 48, 1200) / nshards + 1;
         for i in 0..n4 {
@@ -617,7 +631,7 @@ fn suite_str(w: &mut dyn Write, tier: &str, seed: u64, shard: usize, nshards: us
     }
     // PGN: hand-assembled texts that exercise the tokeniser (tag pairs, blank-line split, move and result tokens)
     {
-        const HEADERS: [&str; 17] = ["[Result\x0b\"1-0\"\x0c]\n", "[Result\x1c\"1-0\"]\n", "[Result \"0-1\"]\r\n",  "", "[Event \"?\"]\n", "[Result \"1-0\"]\n", "[Result \"0-1\"]\n[Result \"?\"]\n", "[ Result \"1-0\"]\n",
+        const HEADERS: [&str; 21] = ["[\u{c9}preuve \"Open\"]\n", "[\u{e9} \"\"]\n", "[Event \"\u{e9}t\u{e9}\"]\n", "[R\u{e9}sultat \"1-0\"]\n[Result \"0-1\"]\n","[Result\x0b\"1-0\"\x0c]\n", "[Result\x1c\"1-0\"]\n", "[Result \"0-1\"]\r\n",  "", "[Event \"?\"]\n", "[Result \"1-0\"]\n", "[Result \"0-1\"]\n[Result \"?\"]\n", "[ Result \"1-0\"]\n",
             "[Result   \"1/2-1/2\"  ]\n", "[Result \"a b,c:d/e.f?-\"]\n", "[Result\"1-0\"]\n", "[Result \"1-0\" x]\n", "[Result \"\"]\n",
             "[Result\t\"0-1\"\n]\n", "[[Result \"1-0\"]]\n", "[Re_sult9 \"1-0\"][Result \"*\"]\n", "[Result \"0-1\"\n"];
         const SEPS: [&str; 10] = ["\n", "\n\n", "\r\n\r\n", "\n\r\n", "\r\n\n\n", "\n\n\n\n", "\r\r\n\n", "\n \n", "", "\n\r\r\n\n"];
